@@ -199,7 +199,7 @@ enum Req {
     /// BumpVec: with_capacity, extend, optional shrink_to_fit, into_boxed_slice - over every allocator handle
     VecSession(Vec<u32>, usize, bool),
     /// MutBumpVec / MutBumpVecRev over every exclusive allocator handle
-    MutVecSession(Vec<[u8; 3]>, usize, bool),
+    MutVecSession(Vec<u32>, usize, bool, bool),
     /// checkpoint, some allocations, reset_to, one allocation - through every `BumpAllocatorCore` implementor
     CheckpointReset(Vec<usize>),
     /// alloc_try_with(_mut) and the try_ twins, inherent on Bump and on BumpScope
@@ -397,16 +397,19 @@ where
             });
             (out_of(side, r, |x| x), names[k].into())
         }
-        Req::MutVecSession(data, cap, rev) => {
+        Req::MutVecSession(raw, cap, rev, wide) => {
+            // narrow elements (size 3, align 1: sizes that do not divide the free space) or wide ones (u32: alignment padding)
+            let data3: Vec<[u8; 3]> = raw.iter().map(|i| [*i as u8, (*i >> 8) as u8, 0x33]).collect();
+            let data4: Vec<u32> = raw.clone();
             let names = ["&mut Bump", "&mut BumpScope", "WoD<&mut BumpScope>", "WoS<&mut BumpScope>", "&mut dyn MutCoreScope"];
             let k = ep % 10;
             let try_ = k >= 5;
             macro_rules! session {
-                ($T:ident, $alloc:expr) => {{
+                ($T:ident, $alloc:expr, $data:ident) => {{
                     let alloc = $alloc;
                     (|| -> Result<(NonNull<u8>, usize), AllocError> {
                         let mut v = if try_ { $T::try_with_capacity_in(cap, alloc)? } else { $T::with_capacity_in(cap, alloc) };
-                        for x in &data {
+                        for x in &$data {
                             if try_ {
                                 v.try_push(*x)?;
                             } else {
@@ -419,7 +422,12 @@ where
             }
             macro_rules! both {
                 ($alloc:expr) => {
-                    if rev { session!(MutBumpVecRev, $alloc) } else { session!(MutBumpVec, $alloc) }
+                    match (rev, wide) {
+                        (true, true) => session!(MutBumpVecRev, $alloc, data4),
+                        (true, false) => session!(MutBumpVecRev, $alloc, data3),
+                        (false, true) => session!(MutBumpVec, $alloc, data4),
+                        (false, false) => session!(MutBumpVec, $alloc, data3),
+                    }
                 };
             }
             let bm = &mut side.bump;
@@ -433,7 +441,7 @@ where
                     d
                 }),
             });
-            (out_of(side, r, |x| x), format!("{}{}<{}>", if try_ { "try " } else { "" }, if rev { "MutBumpVecRev" } else { "MutBumpVec" }, names[k % 5]))
+            (out_of(side, r, |x| x), format!("{}{}<{}>", if try_ { "try " } else { "" }, if rev { "MutBumpVecRev" } else { "MutBumpVec" }, names[k % 5]) + if wide { " of u32" } else { " of [u8;3]" })
         }
         Req::CheckpointReset(sizes) => {
             let names = ["Bump", "&Bump", "BumpScope", "&BumpScope", "WoD<&BumpScope>", "WoS<&BumpScope>", "dyn Core"];
@@ -631,7 +639,7 @@ fn gen_req(rng: &mut Rng, rem: usize) -> Req {
         28 | 29 => {
             let n = n_for(rng, 3).min(400);
             let cap = *rng.pick(&[0, n, n / 2, n + 5]);
-            Req::MutVecSession((0..n).map(|i| [i as u8, (i >> 8) as u8, 0x33]).collect(), cap, rng.bool())
+            Req::MutVecSession((0..n).map(|i| i as u32 * 3 + 1).collect(), cap, rng.bool(), rng.bool())
         }
         30 => Req::CheckpointReset((0..rng.range(0, 4)).map(|_| *rng.pick(&[1, 8, 100, rem / 2, rem + 10, rem * 2 + 100])).collect()),
         31 => Req::TryWith(rng.chance(2, 3), rng.next()),
